@@ -1302,17 +1302,10 @@ class Config:  # pylint: disable=too-many-instance-attributes
                     value = sensitive_mask * len(str(field_value))
                 else:
                     value = sensitive_mask
-            elif (
-                isinstance(field_value, list)
-                and field_value
-                and all(isinstance(item, Config) for item in field_value)
-            ):
-                # configurations held in a list are rendered with the same options as nested ones
-                # (the field's to_basic() cannot pass virtual / sensitive_mask on)
-                value = [
-                    item.to_tree(virtual=virtual, sensitive_mask=sensitive_mask)
-                    for item in field_value
-                ]
+            elif _holds_config(field_value):
+                # configurations held in a list or dict (at any depth) are rendered with the same
+                # options as nested ones (the field's to_basic() cannot pass virtual / sensitive_mask on)
+                value = _render_held_configs(field_value, virtual, sensitive_mask)
             elif isinstance(field, Field):
                 try:
                     value = field.to_basic(self, field_value)
@@ -1453,6 +1446,33 @@ class Config:  # pylint: disable=too-many-instance-attributes
             DeprecationWarning,
         )
         cmdline_args_override(self, args, ignore)
+
+
+def _holds_config(value: Any) -> bool:
+    """
+    :returns: the list / dict value holds at least one :class:`Config`, possibly inside nested
+        lists or dicts
+    """
+    if isinstance(value, list):
+        return any(isinstance(item, Config) or _holds_config(item) for item in value)
+    if isinstance(value, dict):
+        return any(isinstance(item, Config) or _holds_config(item) for item in value.values())
+    return False
+
+
+def _render_held_configs(value: Any, virtual: bool, sensitive_mask: Optional[str]) -> Any:
+    """
+    Render a container of configurations (see :meth:`Config.to_tree`), keeping its list / dict shape.
+    """
+    if isinstance(value, Config):
+        return value.to_tree(virtual=virtual, sensitive_mask=sensitive_mask)
+    if isinstance(value, list):
+        return [_render_held_configs(item, virtual, sensitive_mask) for item in value]
+    if isinstance(value, dict):
+        return {
+            key: _render_held_configs(item, virtual, sensitive_mask) for key, item in value.items()
+        }
+    return value
 
 
 class ConfigType(Config):
